@@ -40,9 +40,10 @@ type Rec2 struct {
 	Other *Rec3
 }
 type Rec3 struct {
-	V    float64
-	Back *Rec2
-	Leaf Leaf
+	V         float64
+	Back      *Rec2
+	Leaf      Leaf
+	ExtraInfo string
 }
 type Rec4 struct {
 	I    interface{}
@@ -92,6 +93,52 @@ func DrawValue(t *tape.Tape, o ValOpts) Val {
 	return Val{V: v.Interface(), Desc: desc, Supported: g.ok, New: func() interface{} { return reflect.New(typ).Elem().Interface() }}
 }
 
+// TypeSpec is a drawn type; NewValue fills fresh values of it (the natural use
+// of a reused unmarshaler: the same template type, different documents).
+type TypeSpec struct {
+	T         reflect.Type
+	Desc      string
+	Supported bool
+	o         ValOpts
+}
+
+func DrawType(t *tape.Tape, o ValOpts) TypeSpec {
+	g := &vgen{t: t, o: o, ok: true}
+	typ, desc := g.typ(0)
+	return TypeSpec{T: typ, Desc: desc, Supported: g.ok, o: o}
+}
+
+func (ts TypeSpec) NewValue(t *tape.Tape) Val {
+	g := &vgen{t: t, o: ts.o, ok: ts.Supported}
+	v := reflect.New(ts.T).Elem()
+	g.fill(v, 0)
+	typ := ts.T
+	return Val{V: v.Interface(), Desc: ts.Desc, Supported: g.ok, New: func() interface{} { return reflect.New(typ).Elem().Interface() }}
+}
+
+// PointerTo wraps a value in a pointer to a fresh copy of it.
+func PointerTo(v interface{}) interface{} {
+	rv := reflect.ValueOf(v)
+	if !rv.IsValid() {
+		return v
+	}
+	p := reflect.New(rv.Type())
+	p.Elem().Set(rv)
+	return p.Interface()
+}
+
+// Recursive types with an unsupported field declared after the self reference:
+// generating their iterator/builder fails half way, after the self reference
+// has already been resolved through the placeholder.
+type BadRec struct {
+	Next *BadRec
+	C    chan int
+}
+type BadRecList struct {
+	Kids []BadRecList
+	F    func()
+}
+
 var scalarTypes = []reflect.Type{
 	reflect.TypeOf(int(0)), reflect.TypeOf(""), reflect.TypeOf(false), reflect.TypeOf(int8(0)), reflect.TypeOf(int16(0)), reflect.TypeOf(int32(0)), reflect.TypeOf(int64(0)),
 	reflect.TypeOf(uint(0)), reflect.TypeOf(uint8(0)), reflect.TypeOf(uint16(0)), reflect.TypeOf(uint32(0)), reflect.TypeOf(uint64(0)),
@@ -110,6 +157,7 @@ var unsupportedTypes = []reflect.Type{
 	reflect.TypeOf((chan int)(nil)), reflect.TypeOf((func())(nil)), reflect.TypeOf(complex128(0)), reflect.TypeOf(unsafe.Pointer(nil)),
 	reflect.TypeOf(BadChan{}), reflect.TypeOf(&BadFunc{}), reflect.TypeOf(BadNested{}), reflect.TypeOf([]BadComplex{}), reflect.TypeOf(complex64(0)),
 	reflect.TypeOf(map[string]chan int{}), reflect.TypeOf(uintptr(0)),
+	reflect.TypeOf(BadRec{}), reflect.TypeOf(&BadRecList{}), reflect.TypeOf([]BadRec{}),
 }
 
 func (g *vgen) typ(depth int) (reflect.Type, string) {
@@ -137,8 +185,15 @@ func (g *vgen) typ(depth int) (reflect.Type, string) {
 		desc := "struct{"
 		for i := 0; i < n; i++ {
 			ft, fd := g.typ(depth + 1)
-			fields = append(fields, reflect.StructField{Name: fmt.Sprintf("F%d", i), Type: ft})
-			desc += fmt.Sprintf("F%d %s;", i, fd)
+			// every other field has a multi-word name: its marshaled key
+			// (part1_name / part1Name) differs from both the Go name and its
+			// all-lower-case form, which is what exercises key normalisation
+			name := fmt.Sprintf("F%d", i)
+			if i%2 == 1 {
+				name = fmt.Sprintf("Part%dName", i)
+			}
+			fields = append(fields, reflect.StructField{Name: name, Type: ft})
+			desc += fmt.Sprintf("%s %s;", name, fd)
 		}
 		return reflect.StructOf(fields), desc + "}"
 	case k == 6:
